@@ -318,3 +318,32 @@ func VerifH_C19_Picture() {
 		_ = s
 	}
 }
+
+// VerifH_C19_Widths: width modifiers of any size (symbolic maximum width 0..80 on the year component,
+// which truncates the year to that many digits; a menu of widths through the picture parser for every
+// numeric component): formatting returns, and a maximum width of at least the year's digit count
+// leaves the year intact.
+func VerifH_C19_Widths() {
+	t := time.Date(2024, 3, 9, 4, 5, 6, 7000000, time.UTC)
+	if verifChoose(2) == 0 {
+		w := verifInt()
+		verifAssume(w >= 0 && w <= 80)
+		s, err := formatYear(t, &variableMarker{format: "1", maxWidth: w})
+		verifAssert(err == nil, "year-renders-for-every-width")
+		if err == nil && w >= 4 {
+			verifAssert(s == "2024", "wide-maximum-keeps-the-year")
+		}
+		if err == nil && w == 2 {
+			verifAssert(s == "24", "two-digit-year")
+		}
+		return
+	}
+	comps := []string{"Y", "M", "D", "d", "H", "h", "m", "s", "f", "F", "W", "w", "Z", "z", "P", "E", "C"}
+	widths := []string{"1", "2", "3", "9", "10", "18", "19", "20", "63", "64", "65", "100", "*"}
+	c := comps[verifChoose(len(comps))]
+	lo := widths[verifChoose(len(widths))]
+	hi := widths[verifChoose(len(widths))]
+	p := "[" + c + "1," + lo + "-" + hi + "]"
+	verifNote(p)
+	_, _ = FormatTime(t, p) // must return
+}
